@@ -1192,6 +1192,9 @@ impl<K: AsRef<Key>> SigningContext<K> {
             return Err(ServerError::unsigned(match err {
                 ValidationError::BadTrunc => TsigRcode::BADTRUNC,
                 ValidationError::BadKey => TsigRcode::BADKEY,
+                // RFC 8945, section 5.2.2: a MAC that fails to verify is
+                // answered with TSIG error BADSIG.
+                ValidationError::BadSig => TsigRcode::BADSIG,
                 _ => TsigRcode::FORMERR,
             }));
         }
